@@ -23,15 +23,15 @@ type Op struct {
 }
 
 type Case struct {
-	Mode       string  `json:"mode"` // plain cached test
-	Duration   bool    `json:"duration"`
-	SpecNil    bool    `json:"specNil,omitempty"`
-	VSpec      []pbt.F `json:"vspec,omitempty"`
-	DSpec      []int64 `json:"dspec,omitempty"`
-	RootDef    string  `json:"rootDef,omitempty"` // "", "v", "d": root DefaultBuckets option (used when SpecNil)
-	RootVSpec  []pbt.F `json:"rootVSpec,omitempty"`
-	RootDSpec  []int64 `json:"rootDSpec,omitempty"`
-	Ops        []Op    `json:"ops"`
+	Mode      string  `json:"mode"` // plain cached test
+	Duration  bool    `json:"duration"`
+	SpecNil   bool    `json:"specNil,omitempty"`
+	VSpec     []pbt.F `json:"vspec,omitempty"`
+	DSpec     []int64 `json:"dspec,omitempty"`
+	RootDef   string  `json:"rootDef,omitempty"` // "", "v", "d": root DefaultBuckets option (used when SpecNil)
+	RootVSpec []pbt.F `json:"rootVSpec,omitempty"`
+	RootDSpec []int64 `json:"rootDSpec,omitempty"`
+	Ops       []Op    `json:"ops"`
 }
 
 var boundPool = []float64{0, math.Copysign(0, -1), 1, -1, 0.5, 2, 10, -10, 1e-300, -1e-300, 1e300, -1e300,
